@@ -1,7 +1,8 @@
-// corr — correspondence harness: runs the real go-internal packages and the Lean
-// model drivers on the same cases and reports every difference, plus direct property
-// oracles on the implementation.  One sub-command per model group.
-package main
+// Package corr is the shared part of the correspondence harness: each group binary
+// (cmd/<group>) runs the real go-internal packages and a Lean model driver on the same
+// cases, reports every difference, and runs model-independent property oracles on the
+// implementation.
+package corr
 
 import (
 	"encoding/hex"
@@ -9,7 +10,6 @@ import (
 	"flag"
 	"fmt"
 	"os"
-	"sort"
 	"strconv"
 )
 
@@ -48,32 +48,32 @@ type Result struct {
 	PerProperty        map[string]string `json:"per_property,omitempty"`
 }
 
-func newResult(group, tier string, seed int64) *Result {
+func NewResult(group, tier string, seed int64) *Result {
 	return &Result{Group: group, Tier: tier, Seed: seed, OracleChecked: map[string]int{}, Distribution: map[string]int{}, Extra: map[string]any{}}
 }
 
-func (r *Result) disagree(c, impl, model string) {
+func (r *Result) Disagree(c, impl, model string) {
 	r.NDisagreements++
 	if len(r.Disagreements) < 20 {
 		r.Disagreements = append(r.Disagreements, Disagreement{c, impl, model})
 	}
 }
 
-func (r *Result) violate(prop, input, what, class string) {
+func (r *Result) Violate(prop, input, what, class string) {
 	r.Distribution["violation:"+prop+":"+class]++
 	if r.Distribution["violation:"+prop+":"+class] <= 5 {
 		r.Violations = append(r.Violations, Violation{prop, input, what, class})
 	}
 }
 
-func hx(b []byte) string {
+func Hx(b []byte) string {
 	if len(b) == 0 {
 		return "-"
 	}
 	return hex.EncodeToString(b)
 }
 
-func unhx(s string) []byte {
+func Unhx(s string) []byte {
 	if s == "-" {
 		return nil
 	}
@@ -84,37 +84,25 @@ func unhx(s string) []byte {
 	return b
 }
 
-type subcmd func(tier string, seed int64, model string, replay string) *Result
+// RunFunc runs one group's correspondence + oracle pass.
+// replay, when non-empty, is a single case in the group's own encoding.
+type RunFunc func(tier string, seed int64, model string, replay string) *Result
 
-var subcmds = map[string]subcmd{}
-
-func main() {
-	tier := flag.String("tier", "quick", "quick|thorough")
-	seed := flag.Int64("seed", 1, "PRNG seed")
-	model := flag.String("model", "", "path of the Lean model driver")
-	out := flag.String("out", "", "result JSON path")
-	replay := flag.String("replay", "", "replay a single case (group specific encoding)")
-	flag.Parse()
-	if flag.NArg() != 1 {
-		var names []string
-		for k := range subcmds {
-			names = append(names, k)
-		}
-		sort.Strings(names)
-		fmt.Fprintf(os.Stderr, "usage: corr [flags] <group>; groups: %v\n", names)
-		os.Exit(2)
-	}
+// Main parses the common flags of `<group> corr ...` and writes the Result as JSON.
+func Main(args []string, run RunFunc) {
+	fs := flag.NewFlagSet("corr", flag.ExitOnError)
+	tier := fs.String("tier", "quick", "quick|thorough")
+	seed := fs.Int64("seed", 1, "PRNG seed")
+	model := fs.String("model", "", "path of the Lean model driver")
+	out := fs.String("out", "", "result JSON path")
+	replay := fs.String("replay", "", "replay a single case (group specific encoding)")
+	fs.Parse(args)
 	if s := os.Getenv("VERIF_SEED"); s != "" && *seed == 1 {
 		if v, err := strconv.ParseInt(s, 10, 64); err == nil {
 			*seed = v
 		}
 	}
-	f, ok := subcmds[flag.Arg(0)]
-	if !ok {
-		fmt.Fprintf(os.Stderr, "unknown group %q\n", flag.Arg(0))
-		os.Exit(2)
-	}
-	res := f(*tier, *seed, *model, *replay)
+	res := run(*tier, *seed, *model, *replay)
 	data, _ := json.MarshalIndent(res, "", " ")
 	if *out != "" {
 		if err := os.WriteFile(*out, data, 0o666); err != nil {
